@@ -10,6 +10,7 @@
 mod bodyfx;
 mod corpus;
 mod dom;
+mod fixtures;
 mod mon;
 mod prng;
 mod report;
